@@ -262,6 +262,80 @@ def check(part, ops, inputs):
     part.nontriv()
 
 
+# ---------------------------------------------------------------- end to end: the program's inputs as main.execute_vyxal receives them
+# (text, value) pairs; the falsy values matter: an input that evaluates to 0 / [] / "" is still an input
+E2E_TEXTS = [("3", 3), ("0", 0), ("[]", []), ("[1,2]", [1, 2]), ('""', ""), ("abc", "abc")]
+# (program text, reads it performs as (printed?) flags) - every operation leaves the stack empty
+E2E_OPS = [("?,", (True,)), (",", (True,)), ("_", (False,)), ("λ?,;†_", (False, True))]
+_PRINTED = {}
+
+
+def printed_form(value):
+    k = repr(value)
+    if k not in _PRINTED:
+        import contextlib
+        import io
+
+        from vyxal.elements import vy_print
+
+        buf = io.StringIO()
+        with contextlib.redirect_stdout(buf):
+            vy_print(value, ctx=sandbox.fresh_ctx())
+        _PRINTED[k] = buf.getvalue()
+    return _PRINTED[k]
+
+
+def check_e2e(part, ops, texts, online):
+    sandbox.setup()
+    program = "".join(o[0] for o in ops)
+    values = [dict(E2E_TEXTS)[t] for t in texts]
+    k = 0
+    want = ""
+    printed = False
+    reads = [f for o in ops for f in o[1]]
+    for f in reads + [None]:
+        if f is None and printed:
+            break
+        v = values[k % len(values)] if values else 0
+        k += 1
+        if f is None or f:
+            want += printed_form(v)
+            printed = True
+    part.count()
+    case = {"program": program, "input_texts": list(texts), "online": online}
+    if online:
+        out = {1: "", 2: ""}
+        _, exc = sandbox.execute_vyxal(program, "", "\n".join(texts), online=True, out=out)
+        got = out[1] if exc is None and not out[2] else "%s%s | %s" % (out[1], out[2][-80:], type(exc).__name__)
+    else:
+        got, exc = sandbox.execute_vyxal(program, "", list(texts))
+        if exc is not None:
+            got = "%s | %s: %s" % (got, type(exc).__name__, str(exc)[:60])
+    if isinstance(exc, sandbox.CaseTimeout):
+        part.cap("backstop hit (slow is not wrong): " + program)
+        return
+    part.outcome(("e2e", len(texts), k % max(1, len(texts))))
+    part.nontriv()
+    if got != want:
+        part.violation("e2e", case, "values delivered to a whole program run differ from input k mod n (execute_vyxal)",
+                       {"n_inputs": len(texts), "online": online, "last_input": texts[-1] if texts else "", "what": "printed reads"},
+                       want, got, size=len(program) * 10 + len(texts))
+
+
+def _e2e_shard(args):
+    text_lists, depth = args
+    part = explore.Partial()
+    n = 0
+    for texts in text_lists:
+        for d in range(1, depth + 1):
+            for ops in itertools.product(E2E_OPS, repeat=d):
+                for online in (False, True):
+                    check_e2e(part, ops, texts, online)
+                    n += 1
+    part.section("end_to_end", runs=n)
+    return part.data()
+
+
 MENU_A = [Q, P1, P2, P3, PUSH, lam(1, P1, P1), lam(2, P1, P1, P1, Q), fn(1, P1, P1), lst((P1,), (Q,)), fn(1, P1, BRK, P1)]
 INNER = [(), (P1,), (Q,), (P1, P1), (P2,), (Q, P1), (P1, P1, P1), (PUSH, P3), (lam(1, P1, P1),), (P1, lam(0, P1), P1)]
 
@@ -332,6 +406,9 @@ def run(tier, seed):
     explore.pmap(_shard, [([f], mb, db, INPUT_LISTS) for f in mb], rep, seed)
     n_hist = sum(len(MENU_A) ** k for k in range(1, da + 1)) * len(INPUT_LISTS) + sum(len(mb) ** k for k in range(1, db + 1)) * len(INPUT_LISTS)
     explore.pmap(_bfs_shard, [(inp, mb, 12) for inp in INPUT_LISTS], rep, seed)
+    names = [t for t, _ in E2E_TEXTS]
+    tl = [tuple(c) for n in range(0, 4) for c in itertools.product(names if n < 3 else names[:4], repeat=n)]
+    explore.pmap(_e2e_shard, [(c, 3 if quick else 4) for c in explore.chunks(tl, 6)], rep, seed)
     b = rep.sections.get("bfs", {})
     rep.extra.update({
         "states": int(b.get("states", 1)) or 1,
@@ -346,8 +423,11 @@ def run(tier, seed):
     rep.rule = ("input lists of length 0..4 (distinct sentinels) x ALL histories of length <=%d over the 9-operation menu A "
                 "(? _ \" ∇ push, λ1 / λ2 with inner reads, a named function, a list literal) without dedup; ALL histories of length <=%d over "
                 "the %d-operation menu B (lambda arities 0-2 x 10 inner read sequences incl. nested lambdas, functions, list items, "
-                "loops); BFS with dedup on (cursor mod n, stack height capped at 3) to depth 12 over menu B. Distinct = (history, inputs)."
-                % (da, db, len(mb)))
+                "loops); BFS with dedup on (cursor mod n, stack height capped at 3) to depth 12 over menu B. Distinct = (history, inputs). "
+                "End to end: main.execute_vyxal (offline and online) with every list of 0..3 input TEXTS over %d texts (incl. ones that evaluate "
+                "to 0, [] and the empty string) x every sequence of <=%d reading operations (? , _ and a lambda with an explicit read), "
+                "printed values compared with input k mod n."
+                % (da, db, len(mb), len(E2E_TEXTS), 3 if quick else 4))
     rep.sample({"program": "".join(render(o) for o in (Q, P3, lam(2, P1, P1, P1, Q))), "inputs": [101, 102, 103]})
     rep.sample({"program": render(lam(1, P1, lam(0, P1), P1)), "inputs": [101]})
     rep.sample({"program": render(lst((P1,), (Q,))) + render(P2), "inputs": []})
@@ -358,6 +438,16 @@ def run(tier, seed):
 
 def replay(art):
     c = art["case"]
+    if "input_texts" in c:
+        part = explore.Partial()
+        by = {o[0]: o for o in E2E_OPS}
+        ops, rest = [], c["program"]
+        while rest:
+            o = next(o for o in sorted(E2E_OPS, key=lambda o: -len(o[0])) if rest.startswith(o[0]))
+            ops.append(o)
+            rest = rest[len(o[0]):]
+        check_e2e(part, tuple(ops), tuple(c["input_texts"]), c["online"])
+        return part.d["violations"] or None
     # rebuild ops from the rendered history is not possible in general: replay by program text against a re-derived model
     part = explore.Partial()
     mb = menu_b()
